@@ -5,8 +5,9 @@ from scipy.special import spherical_jn, spherical_yn
 def nmax_for(x):
     return int(np.ceil(x + 4.05 * x ** (1 / 3) + 2)) + 15
 
-def mie_ab(m, x, nmax=None):
-    """a_n, b_n (B&H 4.53) via Riccati-Bessel with scipy spherical bessels; m complex ok"""
+def mie_ab_direct(m, x, nmax=None):
+    """a_n, b_n straight from B&H eq. 4.53 with scipy spherical Bessel functions of complex
+    argument (overflows for |Im(m x)| > ~600; kept as a cross-check of mie_ab)."""
     if nmax is None: nmax = nmax_for(x)
     n = np.arange(1, nmax + 1)
     mx = m * x
@@ -20,6 +21,31 @@ def mie_ab(m, x, nmax=None):
     b = (psi_mx * dpsi_x - m * psi_x * dpsi_mx) / (psi_mx * dxi_x - m * xi_x * dpsi_mx)
     return a, b
 
+
+def mie_ab(m, x, nmax=None):
+    """a_n, b_n by the textbook BHMIE scheme (B&H eq. 4.88/4.89): logarithmic derivative
+    D_n(mx) by downward recurrence, psi_n, xi_n of the real argument from scipy.  Robust for
+    absorbing spheres (no exponentially large intermediate)."""
+    if nmax is None: nmax = nmax_for(x)
+    m = complex(m)
+    mx = m * x
+    nmx = int(max(nmax, abs(mx)) + 12 * abs(mx) ** (1 / 3) + 80)
+    D = np.zeros(nmx + 1, dtype=complex)
+    for n in range(nmx, 0, -1):
+        D[n - 1] = n / mx - 1.0 / (D[n] + n / mx)
+    n = np.arange(0, nmax + 1)
+    j = spherical_jn(n, x); y = spherical_yn(n, x)
+    psi = x * j
+    xi = x * (j + 1j * y)
+    nn = n[1:]
+    Dn = D[1:nmax + 1]
+    ta = Dn / m + nn / x
+    tb = Dn * m + nn / x
+    a = (ta * psi[1:] - psi[:-1]) / (ta * xi[1:] - xi[:-1])
+    b = (tb * psi[1:] - psi[:-1]) / (tb * xi[1:] - xi[:-1])
+    return a, b
+
+
 def pi_tau(theta, nmax):
     mu = np.cos(theta)
     pi = np.zeros((nmax + 1,) + np.shape(theta)); tau = np.zeros_like(pi)
@@ -29,8 +55,8 @@ def pi_tau(theta, nmax):
         tau[n] = n * mu * pi[n] - (n + 1) * pi[n - 1]
     return pi[1:], tau[1:]
 
-def S1S2(m, x, theta):
-    a, b = mie_ab(m, x); nmax = len(a)
+def S1S2(m, x, theta, nmax=None):
+    a, b = mie_ab(m, x, nmax); nmax = len(a)
     n = np.arange(1, nmax + 1); pre = (2 * n + 1) / (n * (n + 1))
     pi, tau = pi_tau(np.atleast_1d(theta), nmax)
     S1 = np.einsum('n,nt->t', pre * a, pi) + np.einsum('n,nt->t', pre * b, tau)
@@ -70,3 +96,61 @@ def near_field(m, x, kr, theta, phi, pol):
     Ey = Er * st * sp + Eth * ct * sp + Eph * cp
     Ez = Er * ct - Eth * st
     return np.array([Ex, Ey, Ez])
+
+
+def near_field_options(m, x, kr, theta, phi, pol, full_radial=True, radial_component=True, nmax=None):
+    """As near_field, with HoloPy's two Mie options mirrored *analytically*:
+    full_radial=False uses the asymptotic h_n(kr) -> (-i)^(n+1) e^{ikr}/(kr) (and its derivative
+    form [rho h]'/rho -> (-i)^n e^{ikr}/(kr)); radial_component=False drops E_r."""
+    a, b = mie_ab(m, x, nmax); nmax = len(a)
+    kr = np.atleast_1d(kr).astype(float); theta = np.atleast_1d(theta); phi = np.atleast_1d(phi)
+    n = np.arange(1, nmax + 1)[:, None]
+    hfull = spherical_jn(n, kr[None, :]) + 1j * spherical_yn(n, kr[None, :])
+    if full_radial:
+        h = hfull
+        dh = spherical_jn(n, kr[None, :], derivative=True) + 1j * spherical_yn(n, kr[None, :], derivative=True)
+        dxi_over_rho = h / kr[None, :] + dh
+    else:
+        e = np.exp(1j * kr)[None, :] / kr[None, :]
+        h = ((-1j) ** (n + 1)) * e
+        dxi_over_rho = ((-1j) ** n) * e
+    pi, tau = pi_tau(theta, nmax)
+    En = (1j ** n) * (2 * n + 1) / (n * (n + 1))
+    an = a[:, None]; bn = b[:, None]
+    # HoloPy documents the asymptotic option for the amplitude scattering matrix (transverse
+    # components); the non-radiative radial component always uses the full Hankel function.
+    Er_c = np.sum(En * 1j * an * n * (n + 1) * np.sin(theta)[None] * pi * hfull / kr[None], axis=0)
+    Eth_c = np.sum(En * (1j * an * tau * dxi_over_rho - bn * pi * h), axis=0)
+    Eph_s = np.sum(En * (-1j * an * pi * dxi_over_rho + bn * tau * h), axis=0)
+    if not radial_component:
+        Er_c = np.zeros_like(Er_c)
+    px, py = pol; nrm = np.hypot(px, py); px, py = px / nrm, py / nrm
+    ang = np.arctan2(py, px)
+    phr = phi - ang
+    Er = Er_c * np.cos(phr); Eth = Eth_c * np.cos(phr); Eph = Eph_s * np.sin(phr)
+    st, ct, sp, cp = np.sin(theta), np.cos(theta), np.sin(phi), np.cos(phi)
+    Ex = Er * st * cp + Eth * ct * cp - Eph * sp
+    Ey = Er * st * sp + Eth * ct * sp + Eph * cp
+    Ez = Er * ct - Eth * st
+    return np.array([Ex, Ey, Ez])
+
+
+def wiscombe(x):
+    """Textbook truncation order (Wiscombe 1980; B&H appendix A)."""
+    return int(np.round(abs(x + 4.05 * x ** (1. / 3.) + 2)))
+
+
+def holopy_field(n_sphere, radius, center, pts, medium_index, wavelen, pol,
+                 full_radial=True, radial_component=True, nmax=None):
+    """Scattered field at detector points pts (N,3) in HoloPy's documented geometry:
+    offset (x-x0, y-y0, z0-z), result multiplied by exp(-i k z0).  Returns (N,3) complex."""
+    k = 2 * np.pi * medium_index / wavelen
+    m = n_sphere / medium_index
+    x = k * radius
+    pts = np.asarray(pts, dtype=float)
+    dx = pts[:, 0] - center[0]; dy = pts[:, 1] - center[1]; dz = center[2] - pts[:, 2]
+    r = np.sqrt(dx * dx + dy * dy + dz * dz)
+    theta = np.arctan2(np.hypot(dx, dy), dz)
+    phi = np.arctan2(dy, dx)
+    E = near_field_options(m, x, k * r, theta, phi, pol, full_radial, radial_component, nmax)
+    return (E * np.exp(-1j * k * center[2])).T
